@@ -244,7 +244,6 @@ func (h *VHist) CanonOpt(absIDs []string, absDatasets []string, extra string, on
 	return hex.EncodeToString(sum[:])
 }
 
-
 // CatalogueDigest: the catalogue records of this history as they are on disk: the dataset records (name, public
 // namespaces, proxy / virtual settings) and, per name, the state of its meta-entity versions in core.Dataset.
 // Part of the canonical state of histories about the catalogue: two histories that agree on the entities can still
